@@ -359,8 +359,9 @@ def run_mozpath(chk, model):
             if segs[j] == "a.b" and not has_ss:
                 cases.append(("/".join(parts[:k] + ["a", "b"] + parts[k + 1:]), pat, False, "meta-near-miss"))
             chk.hist("mozpath_meta", segs[j])
-        if segs[-1] == "**" and len(segs) >= 2 and "*" not in segs[-2] and \
-                not any(a == "**" and b == "**" for a, b in zip(segs, segs[1:])):
+        if segs[-1] == "**" and len(segs) >= 2 and "*" not in segs[-2] and segs.count("**") == 1:
+            # (with an earlier `**` the sibling path can match through another decomposition:
+            #  `**/f.ftl/**` matches y/f.ftl/f.ftlx as y | f.ftl | f.ftlx — false alarm of the first version)
             # dir/** : a sibling whose name merely starts with the directory name is not below it
             k = sum(len(f) for f in fill[:-1])
             cases.append(("/".join(parts[:k]) + rng.choice(["x", "baz", "-2"]), pat, False, "sibling-of-dir"))
